@@ -73,6 +73,9 @@ I3o3 == InvCells(N3, OddKeys, 3)
 I2a2 == InvCells(N2, AllKeys, 2)        \* <= 2 lots among the six (currency, cost) keys, numbers 1 / -1 (cancelling lots)
 I2qa2 == InvCells(N2q, AllKeys, 2)
 I3a2 == InvCells(N3, AllKeys, 2)
+I1a2 == InvCells(N1, AllKeys, 2)
+I2m2 == InvCells(N2, {1, 2, 3, 4}, 2)   \* AAA / BBB, with and without cost, 1 / -1
+I2a3 == InvCells(N2, AllKeys, 3)
 I2a6 == InvCells(N2, AllKeys, 6)        \* 3 currencies x <= 2 lots per currency
 I3a6 == InvCells(N3, AllKeys, 6)
 
@@ -85,8 +88,11 @@ ShapesOf ==
               S1("Inventory", I1o3, 3), S1("Inventory", I2a2, 2), S1("Inventory", I2qo2, 2), S1("Inventory", I2a6, 1),
               S2(A1, I1o2, 2), S2p(P1, Pq, 2) >>
       [] Space = "thorough" ->
+           \* 3 rows for every kind (inventories: 3 numbers x presence patterns; <= 2 lots over the six keys; cancelling
+           \* lots of two currencies), 2 rows x <= 3 lots, 1 row x the full space with 3 numbers
            << S1("Amount", A5, 3), S1("Position", P5, 3),
-              S1("Inventory", I3o3, 3), S1("Inventory", I2a2, 3), S1("Inventory", I2a6, 2), S1("Inventory", I3a6, 1),
+              S1("Inventory", I2qo3, 3), S1("Inventory", I1a2, 3), S1("Inventory", I2m2, 3),
+              S1("Inventory", I3o3, 2), S1("Inventory", I2a2, 2), S1("Inventory", I2a3, 2), S1("Inventory", I3a6, 1),
               S2(A3, I2qo2, 2), S2p(P2q, P2q, 2) >>
       \* small spaces for the non-vacuity runs
       [] Space = "invnull" -> << S1("Inventory", I1o1, 2) >>
@@ -98,8 +104,9 @@ ShapesOf ==
            << S1("Amount", A01q, 2), S1("Position", P01q, 2), S1("Inventory", I1o3, 3), S1("Inventory", I2qa2, 2),
               S1("Inventory", I2a6, 1), S2(A1, I1o2, 2) >>
       [] Space = "gen-shell" -> << S1("Inventory", I2qo3, 2), S1("Inventory", I1o3, 3) >>
-      [] Space = "gen-thorough" ->
-           << S1("Amount", A5, 3), S1("Position", P01q, 3), S1("Position", P5, 2),
-              S1("Inventory", I2qo3, 3), S1("Inventory", I3a2, 2), S1("Inventory", I3a6, 1),
-              S2(A2q, I2qo2, 2), S2p(P2q, P2q, 2) >>
+      \* thorough replay, in two runs (bounds the memory of the driver)
+      [] Space = "gen-thorough-1" ->
+           << S1("Amount", A5, 3), S1("Position", P01q, 3), S1("Position", P5, 2), S1("Inventory", I2qo3, 3) >>
+      [] Space = "gen-thorough-2" ->
+           << S1("Inventory", I3a2, 2), S1("Inventory", I3a6, 1), S2(A2q, I1o2, 2), S2p(P2q, Pq, 2) >>
 =============================================================================
